@@ -628,8 +628,12 @@ with the variable bound to `v` (raw: before the runner-specific wrapping) -/
 def macroM (r : Runner) (k : MK) (c : V) (body : V → PyM V) : PyM V :=
   match r with
   | .I =>
-      if c.isErr then .ok c else do
-      let l ← iterOf c
+      if c.isErr then .ok c else
+      match iterOf c with
+      -- a range that cannot be iterated (`null.all(x, p)`): the `TypeError` is handled inside the interpreter,
+      -- the macro's value is an error VALUE (absorbed by `||` / `&&`) — measured, round 3
+      | .error _ => .ok .err
+      | .ok l =>
       match k with
       -- `try: … except CELEvalError as ex: result_value = ex` around the three eager macros
       | .map => catching [.celEval] (.list <$> mapM (fun v => raiseIfErr (body v)) l)
